@@ -9,6 +9,13 @@ type scope struct {
 	n     int
 }
 
+// keys under which a loop's scope records its limit and index variables.
+// ("$" cannot occur in a Soy variable name, so they cannot clash with one.)
+const (
+	loopLimitKey = "$limit"
+	loopIndexKey = "$index"
+)
+
 func (s *scope) push() {
 	s.stack = append(s.stack, make(map[string]string))
 }
@@ -53,8 +60,8 @@ func (s *scope) pushForRange(loopVar string) (lVar, lLimit string) {
 	n := strconv.Itoa(s.n)
 	s.stack = append(s.stack, map[string]string{
 		loopVar:   loopVar + n,
-		"__limit": loopVar + "Limit" + n,
-		"__index": loopVar + n,
+		loopLimitKey: loopVar + "Limit" + n,
+		loopIndexKey: loopVar + n,
 	})
 	return loopVar + n,
 		loopVar + "Limit" + n
@@ -65,8 +72,8 @@ func (s *scope) pushForEach(loopVar string) (lVar, lList, lLen, lIndex string) {
 	n := strconv.Itoa(s.n)
 	s.stack = append(s.stack, map[string]string{
 		loopVar:   loopVar + n,
-		"__limit": loopVar + "Limit" + n,
-		"__index": loopVar + "Index" + n,
+		loopLimitKey: loopVar + "Limit" + n,
+		loopIndexKey: loopVar + "Index" + n,
 	})
 	return loopVar + n,
 		loopVar + "List" + n,
@@ -76,10 +83,10 @@ func (s *scope) pushForEach(loopVar string) (lVar, lList, lLen, lIndex string) {
 
 // looplimit returns the JS variable name for the innermost loop limit.
 func (s *scope) looplimit() string {
-	return s.lookup("__limit")
+	return s.lookup(loopLimitKey)
 }
 
 // looplimit returns the JS variable name for the innermost loop index.
 func (s *scope) loopindex() string {
-	return s.lookup("__index")
+	return s.lookup(loopIndexKey)
 }
